@@ -175,7 +175,7 @@ def run(repo, res):
     from . import sampleorder
 
     res.rule("R03.6", "sample nodes are identified by ts.samples() / the NODE_IS_SAMPLE bit, never by position in the node table: num_samples is used as a count only (no slice bound, no id range, no ordering comparison with a node id)")
-    sampleorder.run(repo, res, "R03.6")
+    sampleorder.run(repo, res, "R03.6", floor=1, scope=["core", "variational", "discrete", "util.constrain_ages", "util._constrain_ages"])
     res.rule("R03.1", "in the least-squares phase every non-zero correction of a node's time is control-dependent on that node not being fixed (slot-to-node mapping read from the statements that apply the corrections)")
     res.rule("R03.2", "the forced pass stores exactly the violated bound t[c] (+) eps (possibly strengthened by nextafter) into the parent's slot")
     res.rule("R03.3", "after the least-squares loop the only stores to the time vector index the edge's parent")
@@ -183,7 +183,7 @@ def run(repo, res):
     res.rule("R03.5", "sample (fixed) status is never decided by comparing the whole node-flags word: every read of nodes_flags / .flags is a bitwise test or a whole-column move (samples may carry further flag bits, e.g. tsinfer's historical-sample bit)")
     r031(repo, res)
     r032(repo, res)
-    flagsrule.run(repo, res, "R03.5")
+    flagsrule.run(repo, res, "R03.5", floor=3, scope=["core", "variational", "discrete", "rescaling", "phasing", "prior", "node_time_class", "util.constrain_ages", "util._constrain_ages", "util.mutation_span_array"])
     f, ls, forced, tvar = kernel_parts(repo)
     e = U(forced.target)
     p, c = edge_vars(forced.body, e)
@@ -199,7 +199,7 @@ def run(repo, res):
     r034(repo, res)
 
 
-VARIANTS = [dict(v, rule="R03.6") for v in __import__("sa.rules.sampleorder", fromlist=["VARIANTS"]).VARIANTS] + flagsrule.VARIANTS_C03 + [
+VARIANTS = [dict(v, rule="R03.6") for v in __import__("sa.rules.sampleorder", fromlist=["VARIANTS"]).VARIANTS if v["mod"] == "core"] + flagsrule.VARIANTS_C03 + [
     dict(name="fixed-child-moved", mod="util", expect="fire", rule="R03.1", old="                elif nodes_fixed[c] and not nodes_fixed[p]:\n                    edges_cavity[e, 0] = 0\n                    edges_cavity[e, 1] = adjustment", new="                elif nodes_fixed[c] and not nodes_fixed[p]:\n                    edges_cavity[e, 0] = -adjustment / 2\n                    edges_cavity[e, 1] = adjustment / 2"),
     dict(name="fixed-test-swapped", mod="util", expect="fire", rule="R03.1", old="                elif not nodes_fixed[c] and nodes_fixed[p]:\n                    edges_cavity[e, 0] = -adjustment\n                    edges_cavity[e, 1] = 0", new="                elif not nodes_fixed[c] and nodes_fixed[p]:\n                    edges_cavity[e, 0] = 0\n                    edges_cavity[e, 1] = adjustment"),
     dict(name="slots-swapped-at-application", mod="util", expect="fire", rule="R03.1", old="            nodes_time[c] += edges_cavity[e, 0]\n            nodes_time[p] += edges_cavity[e, 1]", new="            nodes_time[c] += edges_cavity[e, 1]\n            nodes_time[p] += edges_cavity[e, 0]"),
